@@ -69,6 +69,7 @@ type Frame struct {
 	isDefer   bool            // frame was pushed by rundefers: result discarded, resume rundefers
 	isThread  bool
 	cut       map[*ssa.BasicBlock]bool // loop headers already cut in this activation
+	loopEntry map[int]*Snapshot        // heap at the moment loop <ordinal> was entered (for atloop(n, e))
 	params    []Val
 	rangeRet  *rangeRet // frame is a sync.Map.Range callback activation
 	specAddrs map[string]*Ptr
@@ -226,6 +227,10 @@ func (st *State) clone() *State {
 			nf.env[k] = v
 		}
 		nf.defers = append([]Deferred{}, f.defers...)
+		nf.loopEntry = map[int]*Snapshot{}
+		for k, v := range f.loopEntry {
+			nf.loopEntry[k] = v
+		}
 		nf.cut = map[*ssa.BasicBlock]bool{}
 		for k, v := range f.cut {
 			nf.cut[k] = v
